@@ -104,7 +104,7 @@ def probe(chk: Check) -> None:
     prog = chk.program
     rule = "C08.PATH.probe"
     construct = "pyjelly.parse.ioutils.get_options_and_frames"
-    for seekable in (True, False):
+    for seekable, extra in ((True, {}), (False, {}), (False, {"user_buffered_reader": True}), (True, {"user_buffered_reader": True})):
         for delim in (True, False):
             for hdr in ((b"\x20\x0a\x05", b"\x0a\x0a\x05", b"\x00\x0a\x0a") if delim else (b"\x0a\x05\x0a", b"\x0a\x0a\x0a")):
 
@@ -114,12 +114,12 @@ def probe(chk: Check) -> None:
                     frames = [w.frame([w.options_row(1, 1)] + w.statement_rows(1, 1, "a"))]
                     if delim:
                         frames.append(w.frame(w.statement_rows(1, 1, "b")))
-                    inp = K.models.make_input(AIter(iter(frames), "frames"), hdr, seekable=seekable, buffered=True)
+                    inp = K.models.make_input(AIter(iter(frames), "frames"), hdr, seekable=seekable, buffered=True, **extra)
                     opts, fr = it.unpack_values(k.call(k.get(K.IO, "get_options_and_frames"), inp))
                     got = it.drain(fr)
                     return frames, got, k.attr(opts, "params.delimited")
 
-                inst = f"seekable={seekable} delimited={delim} header={hdr.hex()}"
+                inst = f"seekable={seekable}{' caller-supplied BufferedReader' if extra else ''} delimited={delim} header={hdr.hex()}"
                 res = list(explore(prog, scenario, max_paths=8, generic_strings=True))
                 chk.paths += len(res)
                 for it, out in res:
